@@ -429,10 +429,28 @@ func pow2(t string) string {
 
 // Go's truncated division and remainder in terms of SMT-LIB's floor-style div/mod.
 func goDiv(a, b string) string {
+	if isPosLit(b) {
+		return fmt.Sprintf("(ite (>= %s 0) (div %s %s) (- (div (- %s) %s)))", a, a, b, a, b)
+	}
 	return fmt.Sprintf("(ite (>= %s 0) (ite (> %s 0) (div %s %s) (- (div %s (- %s)))) (ite (> %s 0) (- (div (- %s) %s)) (div (- %s) (- %s))))", a, b, a, b, a, b, b, a, b, a, b)
 }
 func goMod(a, b string) string {
+	if isPosLit(b) {
+		return fmt.Sprintf("(ite (>= %s 0) (mod %s %s) (- (mod (- %s) %s)))", a, a, b, a, b)
+	}
 	return fmt.Sprintf("(ite (>= %s 0) (mod %s (abs %s)) (- (mod (- %s) (abs %s))))", a, a, b, a, b)
+}
+
+func isPosLit(s string) bool {
+	if s == "" || s == "0" {
+		return false
+	}
+	for _, c := range s {
+		if c < '0' || c > '9' {
+			return false
+		}
+	}
+	return true
 }
 
 func (ex *Exec) orderedCmp(op string, l, r Val) string {
